@@ -162,7 +162,13 @@ def run_check(repo, chk: Check, tier, prefix):
             if o.meta.get("path_infeasible"):
                 vac += 1  # the whole path is infeasible under the full path condition: vacuous instance
                 continue
-            r, t, inf = discharge(o, timeout_ms=30000)
+            if ms > solver_budget_ms // 3:
+                # one obligation may not starve the others of this check (it is undecided already, or about to be refuted elsewhere)
+                results.append("unknown")
+                info = info or {"solver_output": f"a third of the solver budget of this check ({solver_budget_ms // 3000} s) spent on this obligation"}
+                continue
+            # after a timeout the obligation can only end undecided or refuted: the remaining instances get a short budget
+            r, t, inf = discharge(o, timeout_ms=30000 if "unknown" not in results else 6000)
             ms += t
             spent += t
             if r == "refuted" and o.meta.get("numeric") is None and _mentions_arrays(o.goal):
